@@ -26,9 +26,21 @@ from . import circ
 
 
 def strip_adaptors(x):
-    while isinstance(x, tuple) and x and x[0] in ("take", "map", "enumerate") and len(x) > 1:
+    while isinstance(x, tuple) and x and x[0] in ("take", "map", "enumerate", "rev") and len(x) > 1:
         x = x[1]
     return x
+
+
+PARAM_LEN = {}   # (body path, param index) -> N for parameters of type [T; N] / &[T; N] / &mut [T; N]
+
+
+def register_param_lens(body):
+    """record the fixed lengths of a body's array-typed parameters (from their MIR types) for known_len"""
+    import re
+    for i in range(1, body.argc + 1):
+        m = re.match(r"^&?(?:mut )?\[.*; (\d+)\]$", body.local_ty(i) or "")
+        if m:
+            PARAM_LEN[(body.path, i)] = int(m.group(1))
 
 
 def known_len(x):
@@ -36,6 +48,8 @@ def known_len(x):
     x = P.norm(x)
     if not isinstance(x, tuple) or not x:
         return None
+    if x[0] == "param" and (x[1], x[2]) in PARAM_LEN:
+        return PARAM_LEN[(x[1], x[2])]
     if x[0] == "fld" and x[2] == "elements":
         return 4  # HashOutTarget / HashOut: [T; NUM_HASH_OUT_ELTS]
     if x[0] == "array":
@@ -68,7 +82,7 @@ def _k(t):
 
 class Desc:
     """decomposition of a loop iterator"""
-    __slots__ = ("colls", "range", "take", "enum", "other", "it")
+    __slots__ = ("colls", "range", "take", "enum", "other", "it", "rev")
 
     def __init__(self, it):
         self.colls = []
@@ -76,6 +90,7 @@ class Desc:
         self.take = None
         self.enum = False
         self.other = False
+        self.rev = False   # the positions are visited from hi-1 down to lo (same variable, same domain)
         self.it = it
         self._go(it)
         if self.range is not None and (self.colls or self.take is not None):
@@ -98,7 +113,12 @@ class Desc:
             self._go(t[1])
         elif tag == "map":
             self._go(t[1])
-        elif tag in ("skip", "chunks", "chain", "step_by", "windows", "rev", "elem", "index", "lv"):
+        elif tag == "rev":
+            if self.take is not None or self.enum:
+                self.other = True   # rev after take/enumerate changes which positions are meant
+            self.rev = not self.rev
+            self._go(t[1])
+        elif tag in ("skip", "chunks", "chain", "step_by", "windows", "elem", "index", "lv"):
             self.other = True
         elif circ.range_expr(t) is not None:
             if self.range is not None:
@@ -172,6 +192,23 @@ class Nest:
 
 
 _FREE = Nest(loops=[])
+
+
+def frame_nest(frame):
+    """a pseudo-nest holding every loop of a frame (for loop-carried values, which belong to no single effect): element terms are
+    resolved against the loop that streams them (a zip's common domain), and `reversed_loop(var)` tells the visiting order"""
+    loops = []
+    for e in frame.effects():
+        for c in e.ctrl:
+            if c[0] == "loop" and tuple(c[2]) == ("1",) and c[1] not in loops:
+                loops.append(c[1])
+    return Nest(loops=loops)
+
+
+def reversed_loop(nest, var):
+    """is the (unique) loop of `nest` with variable `var` visited in descending order?  None when not unique"""
+    ks = [k for k in range(nest.depth()) if nest.var(k) == var]
+    return nest.desc[ks[0]].rev if len(ks) == 1 else None
 
 
 def canon(t):
